@@ -106,16 +106,15 @@ func (op Cir) Disassembler(arch *Arch, instr string) (string, error) {
 func (op Cir) Simulate(vm *VM, instr string) error {
 	reg_bits := vm.Mach.R
 	regdest := get_id(instr[:reg_bits])
-	regsrc := get_id(instr[reg_bits : reg_bits*2])
 	switch vm.Mach.Rsize {
 	case 8:
-		vm.Registers[regdest] = vm.Registers[regsrc].(uint8) >> 1
+		vm.Registers[regdest] = vm.Registers[regdest].(uint8) >> 1
 	case 16:
-		vm.Registers[regdest] = vm.Registers[regsrc].(uint16) >> 1
+		vm.Registers[regdest] = vm.Registers[regdest].(uint16) >> 1
 	case 32:
-		vm.Registers[regdest] = vm.Registers[regsrc].(uint32) >> 1
+		vm.Registers[regdest] = vm.Registers[regdest].(uint32) >> 1
 	case 64:
-		vm.Registers[regdest] = vm.Registers[regsrc].(uint64) >> 1
+		vm.Registers[regdest] = vm.Registers[regdest].(uint64) >> 1
 	default:
 		return errors.New("Wrong register size")
 	}
